@@ -152,7 +152,11 @@ def check(ctx, text, origin, with_comments=False):
         ctx.case((text, drop, with_comments), nontrivial,
                  sample={'origin': origin, 'drop_semi': drop, 'text': text[:120], 'output': out[:140]}
                  if (nontrivial and ctx.rng.random() < 0.002) else None)
-        v = judge(p.ci, out, c2, err2, ref_c, ref_err, p.es5)
+        try:
+            v = judge(p.ci, out, c2, err2, ref_c, ref_err, p.es5)
+        except RecursionError:
+            ctx.count('skipped:resource_limit')     # this harness' own recursive helpers: no verdict
+            continue
         if v:
             mech, detail = v
             detail += token_diagnosis(text, out)
@@ -268,6 +272,10 @@ def run(ctx):
             if ctx.out_of_time():
                 break
         progs.report()
+        for k, (name, n, text) in enumerate(work.deep_chain_texts()):
+            if k % ctx.nshards == ctx.shard:
+                ctx.hit('deep_chain')
+                check(ctx, text, 'deep_chain:' + name)
         for k, text in enumerate(COMMENTED):
             if k % ctx.nshards == ctx.shard:
                 check(ctx, text, 'commented', with_comments=True)
